@@ -82,7 +82,7 @@ class MappedText:
 # ------------------------------------------------------------------------------------------------
 def parse_vspec(path):
     spec = dict(unit=None, source=None, props_safety=[], props_internal=[], result='res', attrs=[],
-                requires=[], ensures=[], decreases=None, implextra=[], aftereach=[], regions=[], tail=None, tailbind=None, entry=None, loops={}, closures={}, ats=[],
+                requires=[], ensures=[], decreases=None, implextra=[], aftereach=[], regions=[], tail=None, tailbind=None, implas=None, entry=None, loops={}, closures={}, ats=[],
                 subs=[], sigsubs=[], path=path, notes=[])
     cur = None
 
@@ -132,6 +132,9 @@ def parse_vspec(path):
         elif key == 'decreases':
             cur = dict(text=rest.strip())
             spec['decreases'] = cur
+        elif key == 'implas':
+            spec['implas'] = rest.strip()
+            cur = None
         elif key == 'tailbind':
             spec['tailbind'] = rest.strip()
             cur = None
@@ -152,10 +155,10 @@ def parse_vspec(path):
             cur = dict(text=r.strip())
             spec['loops' if key == 'loop' else 'closures'][k] = cur
         elif key == 'at':
-            m = re.match(r'\s*(before|after)\s+"((?:[^"\\]|\\.)*)"\s*(.*)$', rest)
+            m = re.match(r'\s*(before|after)\s+"((?:[^"\\]|\\.)*)"(?:#(\d+))?\s*()$', rest)
             mr = re.match(r'\s*(before|after)\s+/((?:[^/\\]|\\.)*)/\s*(.*)$', rest)
             if m:
-                cur = dict(where=m.group(1), anchor=bytes(m.group(2), 'utf-8').decode('unicode_escape'), text=m.group(3), rx=False)
+                cur = dict(where=m.group(1), anchor=bytes(m.group(2), 'utf-8').decode('unicode_escape'), text='', rx=False, nth=int(m.group(3)) if m.group(3) else None)
             elif mr:
                 cur = dict(where=mr.group(1), anchor=mr.group(2), text=mr.group(3), rx=True)
             else:
@@ -209,6 +212,8 @@ GLOBAL_RULES = [
     ('R2', re.compile(r'\|_\|'), lambda m: '|_e|'),
     ('R5', re.compile(r'\b((?:[A-Za-z_]\w*)(?:\.[A-Za-z_]\w*)*)\.deref\(\)'), lambda m: '(&*%s)' % m.group(1)),
     ('R13', re.compile(r'\bfor _ in\b'), lambda m: 'for _i in'),
+    ('R3', re.compile(r'(?m)^([ \t]*)\((\w+), (\w+)\) = ([^;]+);'),
+     lambda m: '%s{ let __t = %s; %s = __t.0; %s = __t.1; }' % (m.group(1), m.group(4), m.group(2), m.group(3))),
     ('R9', re.compile(r'let (\w+) = ([\w\.\s]+?)\s*\.iter\(\)\s*\.map\(\|(\w+)\| ([^\n]+?)\)\s*\.collect::<Result<Vec<_>, _>>\(\)\?;'),
      lambda m: 'let %s = { let mut __v = Vec::new(); for %s in %s.iter() {\nlet __e = %s?;\n__v.push(__e);\n} __v };' % (
          m.group(1), m.group(3), re.sub(r'\s+', '', m.group(2)), m.group(4))),
@@ -240,6 +245,51 @@ def apply_global_rules(mt, log, skip=()):
             log.append((rid, norm(m.group(0)) + '  =>  ' + norm(new)))
             mt.replace(m.start(), m.end(), new)
             pos = m.start() + len(new)
+
+
+def apply_r8(mt, log):
+    """R8: `E.map(|p| { A }).unwrap_or_else(|| { B })`  ==>  `match E { Some(p) => { A } None => { B } }`
+    (definition of Option::map / unwrap_or_else; needed when the closures assign a captured local)"""
+    while True:
+        msk = mask(mt.text)
+        m = re.search(r'\.map\(\|(\w+)\|\s*\{', msk)
+        if not m:
+            return
+        found = False
+        for m in re.finditer(r'\.map\(\|(\w+)\|\s*\{', msk):
+            b1 = m.end() - 1
+            e1 = match_close(msk, b1)
+            m2 = re.match(r'\)\s*\.unwrap_or_else\(\|\|\s*\{', msk[e1 + 1:])
+            if not m2:
+                continue
+            b2 = e1 + 1 + m2.end() - 1
+            e2 = match_close(msk, b2)
+            if msk[e2 + 1] != ')':
+                continue
+            # receiver expression: back from `.map` to the start of the postfix chain (after `=` / `(` / `,` / `{` / `;`)
+            k = m.start()
+            depth = 0
+            while k > 0:
+                c = msk[k - 1]
+                if c in ')]':
+                    depth += 1
+                elif c in '([':
+                    if depth == 0:
+                        break
+                    depth -= 1
+                elif depth == 0 and c in '=,;{':
+                    break
+                k -= 1
+            recv = mt.text[k:m.start()].strip()
+            body1 = mt.text[b1:e1 + 1]
+            body2 = mt.text[b2:e2 + 1]
+            new = ' match %s { Some(%s) => %s None => %s }' % (re.sub(r'\s+', '', recv), m.group(1), body1, body2)
+            mt.replace(k, e2 + 2, new)
+            log.append(('R8', 'Option map/unwrap_or_else chain on `%s` => match' % re.sub(r'\s+', '', recv)))
+            found = True
+            break
+        if not found:
+            return
 
 
 def name_result(sig, binder):
@@ -405,12 +455,15 @@ class Weaver:
             raise SliceError('%s: source is not a fn with a body' % unit)
         log = []
         sig = S.slice(it['start'], it['body_open']).rstrip()
-        sig = re.sub(r'\bpub\(crate\)\s+', 'pub ', sig)
         for rid, old, new in spec['sigsubs']:
             if old not in sig:
                 raise SliceError('%s: signature anchor lost: %r' % (unit, old))
             sig = sig.replace(old, new)
             log.append((rid, 'signature: %s => %s' % (old, new)))
+        r4 = bool(re.search(r'\(\s*mut\s+self\b', sig))
+        if r4:
+            sig = re.sub(r'\(\s*mut\s+self\b', '(self', sig, count=1)
+            log.append(('R4', 'fn f(mut self, ..) => fn f(self, ..) { let mut this = self; .. } with self -> this in the body'))
         sig, named = name_result(sig, spec['result'])
         sig_first = S.line_of(it['start'])
 
@@ -427,6 +480,11 @@ class Weaver:
                     if k2 in ('type', 'const'):
                         extra.append(S.slice(s2, e2))
                 impl_extra = '\n'.join('    ' + e for e in extra)
+        if spec['implas']:
+            # trait-impl method of a generated trait emitted as an inherent fn of a stand-in type (stated in the evidence)
+            impl_open = spec['implas'] + ' {'
+            impl_extra = None
+            log.append(('R22', 'method of `%s` emitted as inherent fn: %s' % (segs[-2] if len(segs) > 1 else '?', spec['implas'])))
         unit_start = w.lineno + 1
         w.emit('// ---- unit %s [%s] from %s:%d sha256 %s ----' % (unit, mode, file, sig_first, S.sha(it['start'], it['end'])[:16]))
         if impl_open:
@@ -467,6 +525,15 @@ class Weaver:
         # ---- body -------------------------------------------------------------------------
         body = S.slice(it['body_open'] + 1, it['end'] - 1)
         mt = MappedText(body, S.line_of(it['body_open'] + 1))
+        if r4:
+            pos = 0
+            while True:
+                msk_ = mask(mt.text)
+                m_ = re.compile(r'\bself\b').search(msk_, pos)
+                if not m_:
+                    break
+                mt.replace(m_.start(), m_.end(), 'this')
+                pos = m_.start() + 4
         # strip cfg/doc attributes inside the body, keeping line structure
         pos = 0
         while True:
@@ -493,6 +560,7 @@ class Weaver:
                 mt.replace(i, i + len(old), new)
                 pos = i + len(new)
             log.append((rid, '%s  =>  %s  (x%d)' % (norm(old), norm(new), cnt)))
+        apply_r8(mt, log)
         apply_global_rules(mt, log)
         # All woven text goes in through placeholders that are expanded at the very end, so that loop / closure
         # ordinals and text anchors are resolved on code-only text (post-rewrite), never on woven ghost text.
@@ -524,6 +592,10 @@ class Weaver:
             else:
                 cnt = mt.text.count(at['anchor'])
                 i, alen = mt.text.find(at['anchor']), len(at['anchor'])
+                if at.get('nth') and cnt >= at['nth']:
+                    for _ in range(at['nth'] - 1):
+                        i = mt.text.find(at['anchor'], i + 1)
+                    cnt = 1
             if cnt != 1:
                 lost.append('hint anchor %r (matches %d times)' % (at['anchor'], cnt))
                 continue
@@ -619,6 +691,8 @@ class Weaver:
             if m:
                 regions.append((mt.text.count('\n', 0, m.start()), rg['props'], rg['rx']))
         w.emit('    {')
+        if r4:
+            w.emit('        let mut this = self;')
         if spec['entry']:
             w.emit(spec['entry']['text'])
         body_start = w.lineno + 1
